@@ -100,6 +100,10 @@ class SNProg(nn.Module):
             t = st['type']
             if t in ('conv', 'bn', 'pool'):
                 x = getattr(self, st['name'])(x)
+                if st.get('again') == 'same':         # a fixed layer invoked twice
+                    x = getattr(self, st['name'])(F.relu(x))
+                elif st.get('again') == 'pooled':     # ... at two resolutions
+                    x = getattr(self, st['name'])(F.max_pool2d(F.relu(x), 2))
             elif t == 'relu':
                 x = F.relu(x)
             elif t == 'sn':
@@ -160,6 +164,14 @@ def gen_sn_desc(rng, n_blocks=None, max_branches=5, kinds=None, allow_twice=True
         elif r < 0.6 and size >= 4:
             stages.append({'type': 'pool', 'name': nm('pool')})
             size //= 2
+        elif r < 0.68 and allow_twice:
+            # a fixed (torch.nn) layer outside the choice blocks that the network invokes twice
+            again = rng.choice(['same', 'pooled']) if size >= 4 else 'same'
+            stages.append({'type': 'conv', 'name': nm('shr'), 'cin': c, 'cout': c, 'k': 3,
+                           'again': again})
+            stages.append({'type': 'relu'})
+            if again == 'pooled':
+                size //= 2
         elif r < 0.8:
             co = rng.randint(2, 5)
             # fixed layers whose qualified name starts like a choice block's (blk / blk_proj,
